@@ -263,10 +263,18 @@ func genC13(r *Rand, tier, profile string) *Case {
 	dnode := r.Intn(nodes)
 	t += 20
 	ts = append(ts, tstep{t, Step{K: "connect", C: 20, N: dnode, S: "dying", U: "u", T: "p", I: k, L: []string{willTopic, "will1"}, Q: r.Intn(3), F: r.Bool(0.3)}})
-	t += 30
-	ts = append(ts, tstep{t, Step{K: "settle"}})
-	t += settleDur + int64(r.Range(10, int(k*800)))
+	brief := nodes > 1 && r.Bool(0.15)
 	cause := r.Pick([]string{"disconnect", "cut", "close", "silence", "protoerr", "stopnode", "cut", "silence"})
+	if brief {
+		// a session that lives for less than a gossip interval: its creation and its removal are
+		// queued together and may reach another node in either order, or only one of them
+		cause = "disconnect"
+		t += int64(r.Range(3, 150))
+	} else {
+		t += 30
+		ts = append(ts, tstep{t, Step{K: "settle"}})
+		t += settleDur + int64(r.Range(10, int(k*800)))
+	}
 	if cause == "stopnode" && nodes == 1 {
 		cause = "close"
 	}
@@ -286,7 +294,7 @@ func genC13(r *Rand, tier, profile string) *Case {
 		c.Knobs["silent20"] = 1
 		t += 2*k*1000 + 6000
 	}
-	if nodes > 1 && cause != "stopnode" && r.Bool(0.3) {
+	if nodes > 1 && cause != "stopnode" && (brief || r.Bool(0.3)) {
 		// the hosting node fails some time after the session has ended: shortly (the removal of the
 		// record may not have left the node yet) or long after (it has had every chance to spread)
 		gap := int64(r.Range(20, 400))
@@ -425,6 +433,12 @@ func genC16(r *Rand, tier, profile string) *Case {
 	c.Knobs["auth"] = int64(r.PickInt([]int{0, 1, 1, 1}))
 	users := []string{"alice", "bob", "carol", "dave", "erin", "frank", "gus"}
 	passes := []string{"pw1", "pw2", "secret", "x", "pw1"}
+	if r.Bool(0.4) {
+		// field lengths around and beyond a SHA-256 digest (32 bytes): tokens as passwords, long
+		// device names as users
+		passes = []string{"pw1", "0123456789abcdef01234567", "0123456789abcdef012345678", "a-much-longer-token-0123456789abcdef0123456789abcdef", "secret", "ssssssssssssssssssssssssssssss"}
+		users = []string{"al", "bobby1", "device-0123456789abcdef01234567", "carol", "a-thirty-two-byte-long-user-name", "erin", "gus"}
+	}
 	n := r.Range(1, 6)
 	perm := r.Perm(len(users))
 	var rows []string
@@ -696,6 +710,16 @@ func genC17(r *Rand, tier, profile string) *Case {
 			t += 9
 		}
 	}
+	if nodes > 1 && r.Bool(0.25) {
+		// the second node fails (wills of its sessions are published by the survivor); sometimes
+		// it is reported as gone twice within the survivor's 3 s grace period
+		if r.Bool(0.6) {
+			c.Knobs["leave_repeat_ms"] = int64(r.Range(200, 2600))
+		}
+		t += 2000 // whatever was published has long been handed over
+		ts = append(ts, tstep{t, Step{K: "stopnode", N: 1}})
+		t += 10000
+	}
 	t += 100
 	ts = append(ts, tstep{t, Step{K: "settle"}})
 	t += settleDur + 10
@@ -963,6 +987,9 @@ func genC18(r *Rand, tier, profile string) *Case {
 		if r.Bool(0.6) {
 			// a proper CONNECT first: the hostile bytes hit an established session
 			hc := Step{K: "connect", C: cid, N: 0, S: fmt.Sprintf("h%d", i), U: "u", T: "p", I: int64(r.PickInt([]int{2, 30}))}
+			if i > 0 && r.Bool(0.35) {
+				hc.S = fmt.Sprintf("h%d", i-1) // the identifier of an earlier hostile connection, possibly still open
+			}
 			if r.Bool(0.5) { // with a will of any QoS: it is published when the hostile session is thrown out
 				hc.L, hc.Q, hc.F = []string{r.Pick([]string{"wit/hw", "w/hw"}), fmt.Sprintf("hwill%d", i)}, r.Intn(3), r.Bool(0.3)
 			}
